@@ -23,7 +23,7 @@ func (sc *Scenario) specOfReplica(rep string) *ProcSpec {
 }
 
 func isStartOp(op string) bool {
-	return op == "start" || op == "restart" || op == "scale" || op == "update"
+	return op == "start" || op == "restart" || op == "scale" || op == "update" || op == "reload"
 }
 
 // explicitStartCovering: is there an explicit start-like request naming the replica (or a
@@ -106,7 +106,7 @@ func (t *Truth) stopCalls(rep string) []*Call {
 			if c.Arg == rep {
 				r = append(r, c)
 			}
-		case "scale", "update":
+		case "scale", "update", "reload":
 			r = append(r, c)
 		}
 	}
